@@ -102,6 +102,14 @@ func (u *upstream) serve() {
 			u.mu.Lock()
 			u.seen = append(u.seen, seenReq{first, h})
 			u.mu.Unlock()
+			if strings.HasPrefix(first, "CONNECT fail.test") {
+				var sb strings.Builder
+				sb.WriteString("HTTP/1.1 403 Forbidden\r\nContent-Length: 0\r\n")
+				sendHeaders(&sb, u.respHead)
+				sb.WriteString("\r\n")
+				c.Write([]byte(sb.String()))
+				return
+			}
 			if strings.HasPrefix(first, "CONNECT ") {
 				fmt.Fprintf(c, "HTTP/1.1 200 OK\r\n\r\n")
 				// echo until the client closes
@@ -136,6 +144,18 @@ func (u *upstream) serve() {
 
 var e2eNames = []string{"X-Vf-A", "x-vf-a", "X-VF-A", "X-Vf-B", "x-vf-b", "X-Vf-Bc", "X-Vf-C"}
 var e2eVals = []string{"1", "two", "a b", "x;y"}
+
+// genE2ERules: 1..3 rules; an adjacent exact repeat of a rule now and then.
+func genE2ERules(r *rng.R) []string {
+	var out []string
+	for i, n := 0, 1+r.Intn(3); i < n; i++ {
+		out = append(out, genE2ERule(r))
+		if r.Chance(1, 4) {
+			out = append(out, out[len(out)-1])
+		}
+	}
+	return out
+}
 
 func genE2ERule(r *rng.R) string {
 	n := r.Pick(e2eNames)
@@ -217,19 +237,13 @@ func runE2E(bin string, r *rng.R, configs int) ([]string, []any, error) {
 	var cases []string
 	var js []any
 	for ci := 0; ci < configs; ci++ {
-		var req, con, resp []string
-		for i, n := 0, 1+r.Intn(3); i < n; i++ {
-			req = append(req, genE2ERule(r))
-		}
-		for i, n := 0, 1+r.Intn(3); i < n; i++ {
-			con = append(con, genE2ERule(r))
-		}
-		for i, n := 0, 1+r.Intn(3); i < n; i++ {
-			resp = append(resp, genE2ERule(r))
-		}
+		req, con, resp := genE2ERules(r), genE2ERules(r), genE2ERules(r)
 		if ci == 0 {
-			// corpus configuration (always runs): an Add connect rule on a name the client also sends
-			req, con, resp = []string{"X-Vf-A: two"}, []string{"X-Vf-B: x;y", "%x-vf-c"}, []string{"-X-Vf-B*", "X-Vf-C;"}
+			// corpus configuration (always runs): an Add connect rule on a name the client also sends,
+			// the same Add rule twice in a row, a rename followed by an Add on the same field
+			req = []string{"X-Vf-A: two", "X-Vf-A: two", "%x-vf-b", "X-Vf-B: 1"}
+			con = []string{"X-Vf-B: x;y", "%x-vf-c"}
+			resp = []string{"-X-Vf-B*", "X-Vf-C;", "X-Vf-A: 1", "X-Vf-A: 1"}
 		}
 		l, err := net.Listen("tcp", "127.0.0.1:0")
 		if err != nil {
@@ -329,6 +343,19 @@ func runE2E(bin string, r *rng.R, configs int) ([]string, []any, error) {
 				emit("RespConnect", "RespConnect", rawHeader{}, rh, "client")
 			}
 			up.mu.Unlock()
+		}
+		// a CONNECT the upstream proxy rejects (403 with fields): response rules must not touch it
+		{
+			c, err := net.DialTimeout("tcp", addr, time.Second)
+			if err == nil {
+				c.SetDeadline(time.Now().Add(5 * time.Second))
+				c.Write([]byte("CONNECT fail.test:443 HTTP/1.1\r\nHost: fail.test:443\r\n\r\n"))
+				first, rh, err := readHead(bufio.NewReader(c))
+				c.Close()
+				if err == nil && strings.Contains(first, " 403") {
+					emit("RespConnect", "RespConnect", up.respHead, rh, "client (rejected CONNECT)")
+				}
+			}
 		}
 		cmd.Process.Kill()
 		cmd.Wait()
